@@ -15,7 +15,7 @@ EXPLANATION = (
     "result is sent unconditionally on the channel whose receiver is returned; nothing else calls prove or spawns the prover. BYTES: both sinks "
     "(Problem::to_file, Vampire::prove stdin) format the problem with the bare Display of Problem and nothing transforms the problem list between "
     "them (only into_iter/inspect). FLOW-ERR: spawn/write/wait/utf-8 failures in Vampire::prove are mapped to VampireError and returned. NAMES: the "
-    "problem-name templates are pairwise disjoint languages with enumerate() indices. Runtime scheduling itself is not decided. TAB-STATUS:regex-language: the status pattern, as a regular language, is exactly `SZS status <word> for <word>?`.")
+    "problem-name templates are pairwise disjoint languages with enumerate() indices. Runtime scheduling itself is not decided. TAB-STATUS:regex-language: the status pattern, as a regular language, is exactly `SZS status <word> for <word>?`. FLOW-MONO:every-result: only adaptors that neither drop nor stop sit between prove_all and the verdict loop. CLI: --no-proof-search / --no-timing are plain presence flags.")
 UNDECIDED = ["thread scheduling and a worker dying without sending (runtime)", "the prover's exit status is ignored by the code (source TODO)",
              "that vampire prints the SZS line for the problem it was given"]
 ASSUMPTIONS = ["std::sync::mpsc and threadpool deliver every sent result once", "regex crate semantics of the STATUS pattern"]
